@@ -5,6 +5,7 @@
 -/
 import Rivia.Spec.MemfsJudge
 import Rivia.Lemmas.User
+import Rivia.Lemmas.ModeBits
 
 namespace Rivia.Lemmas.RefineB
 open Rivia Rivia.Memfs Rivia.Spec Rivia.Spec.TreeFs
